@@ -526,7 +526,7 @@ class Engine(object):
         if s is not None:
             return s
         f = self.mod.funcs.get(name)
-        if f is None or name in self.in_progress or depth > Limits.max_expand_depth:
+        if f is None or name in self.in_progress:
             return OPAQUE
         if self.oracle.force_opaque(f):
             self.summaries[name] = OPAQUE
@@ -1075,8 +1075,8 @@ class Engine(object):
             return self._intrinsic(f, ins, name, args, st, rules)
         target = self.mod.funcs.get(name)
         summ = OPAQUE
-        if target is not None and depth <= Limits.max_expand_depth:
-            summ = self.summary(name, depth)
+        if target is not None:
+            summ = self.summary(name, 0)
         if summ is OPAQUE:
             ev = Ev('call', callee=name, args=args, ins=ins, fn=f, site=site, argtys=ins.argtys)
             ev.may_throw = self.oracle.may_throw(name) and not ins.nounwind_site
